@@ -74,6 +74,7 @@ type Eval struct {
 	ex    *Exec
 	st    *State
 	old   *State
+	params map[string]TV // function parameters (entry values); shadowed by like-named locals at loop cuts
 	vars  map[string]TV
 	ts    TSubst
 	fn    *ssa.Function
@@ -84,7 +85,7 @@ type Eval struct {
 }
 
 func (ex *Exec) newEval(st, old *State) *Eval {
-	return &Eval{ex: ex, st: st, old: old, vars: map[string]TV{}, ts: ex.ts, fn: ex.fn, pkg: pkgOf(ex.fn)}
+	return &Eval{ex: ex, st: st, old: old, vars: map[string]TV{}, params: map[string]TV{}, ts: ex.ts, fn: ex.fn, pkg: pkgOf(ex.fn)}
 }
 
 // evalHere: evaluator for the current program point of this activation (caller-side expressions).
@@ -97,8 +98,8 @@ func (ex *Exec) evalHere() *Eval {
 
 func (ex *Exec) bindParams(ev *Eval) {
 	for _, p := range ex.fn.Params {
-		v := ex.val(p)
-		ev.vars[p.Name()] = TV{T: v.T, Ty: goVT(ex.typ(p.Type())), Loc: v.Loc}
+		v := ex.vals[p]
+		ev.params[p.Name()] = TV{T: v.T, Ty: goVT(ex.typ(p.Type())), Loc: v.Loc}
 	}
 	for k, v := range ex.ghostArgs {
 		ev.vars[k] = v
@@ -343,6 +344,16 @@ func (ev *Eval) ident(name string) TV {
 	if v, ok := ev.vars[name]; ok {
 		return v
 	}
+	if v, ok := ev.params[name]; ok {
+		// a parameter that the body reassigns: inside the body (loop cuts, ghost updates) the name means the
+		// current value; in requires/ensures it means the entry value. param(x) always means the entry value.
+		if ev.point != nil {
+			if tv, ok := ev.ex.resolveLocal(name, ev.point, ev.st); ok {
+				return tv
+			}
+		}
+		return v
+	}
 	switch name {
 	case "zero":
 		return TV{Zero: true, T: "0", Ty: vtInt}
@@ -357,7 +368,8 @@ func (ev *Eval) ident(name string) TV {
 	}
 	// ghost variable of the function
 	if gt, ok := ev.vc().ghostSort[name]; ok {
-		return TV{T: ev.ex.get(ev.state(), "G:"+name, ev.vc().vtSort(gt)), Ty: gt}
+		// like locals, ghost variables are not heap locations: old() does not rewind them
+		return TV{T: ev.ex.get(ev.st, "G:"+name, ev.vc().vtSort(gt)), Ty: gt}
 	}
 	// Tmin/Tmax of numeric type parameter:  Tmin_T
 	if strings.HasPrefix(name, "Tmin_") || strings.HasPrefix(name, "Tmax_") {
@@ -389,7 +401,7 @@ func (ev *Eval) ident(name string) TV {
 	}
 	// Go local at the program point
 	if ev.point != nil {
-		if tv, ok := ev.ex.resolveLocal(name, ev.point, ev.state()); ok {
+		if tv, ok := ev.ex.resolveLocal(name, ev.point, ev.st); ok {
 			return tv
 		}
 	}
@@ -514,6 +526,43 @@ func (ev *Eval) quant(e EQuant) TV {
 		sub.vars[v.Name] = TV{T: n, Ty: vt}
 	}
 	body := sub.eval(e.Body).T
+	// Re-index integer variables that address slice elements by absolute array position: a variable k used as
+	// s[k] = E[arr][ix(off,k)] is replaced by a = off+k, so that the element term becomes E[arr][a] and the
+	// quantifier can be triggered by any access to that array, however its index was computed. The re-indexed
+	// formula is equivalent to the original; it is added as a second conjunct, marked with ixalt, which is kept
+	// when the formula is used as a hypothesis and dropped when it is the goal.
+	alt := ""
+	if len(e.Pats) == 0 {
+		abody := body
+		abs := append([]string{}, bs...)
+		var bnames []string
+		for _, b := range bs {
+			bnames = append(bnames, strings.Fields(strings.Trim(b, "()"))[0])
+		}
+		changed := false
+		for i, b := range bs {
+			f := strings.Fields(strings.Trim(b, "()"))
+			if f[1] != "Int" {
+				continue
+			}
+			if off, ok := findIxOffset(abody, f[0], bnames); ok {
+				ev.vc().ctr++
+				a := fmt.Sprintf("qa_%d", ev.vc().ctr)
+				abody = strings.ReplaceAll(abody, "(ix "+off+" "+f[0]+")", a)
+				abody = replaceToken(abody, f[0], "(- "+a+" "+off+")")
+				abs[i] = "(" + a + " Int)"
+				bnames[i] = a
+				changed = true
+			}
+		}
+		if changed {
+			qq := "exists"
+			if e.Forall {
+				qq = "forall"
+			}
+			alt = "(" + qq + " (" + strings.Join(abs, " ") + ") " + abody + ")"
+		}
+	}
 	q := "exists"
 	if e.Forall {
 		q = "forall"
@@ -529,7 +578,11 @@ func (ev *Eval) quant(e EQuant) TV {
 		}
 		return TV{T: "(" + q + " (" + strings.Join(bs, " ") + ") (! " + body + " " + strings.Join(ps, " ") + "))", Ty: vtBool}
 	}
-	return TV{T: "(" + q + " (" + strings.Join(bs, " ") + ") " + body + ")", Ty: vtBool}
+	main := "(" + q + " (" + strings.Join(bs, " ") + ") " + body + ")"
+	if alt != "" {
+		return TV{T: "(and " + main + " (ixalt " + alt + "))", Ty: vtBool}
+	}
+	return TV{T: main, Ty: vtBool}
 }
 
 func (ev *Eval) field(x TV, name string) TV {
@@ -669,6 +722,27 @@ func (ev *Eval) call(e ECall) TV {
 		ev.errorf("len of %s", x.Ty)
 	case "cap":
 		return TV{T: "(scap " + arg(0).T + ")", Ty: vtInt}
+	case "deref":
+		x := arg(0)
+		if x.Loc != nil {
+			return TV{T: ev.ex.loadLocNoPerm(ev.state(), x.Loc), Ty: goVT(x.Loc.Ty)}
+		}
+		if p, ok := x.Ty.Go.Underlying().(*types.Pointer); ok {
+			if isAggregate(p.Elem()) {
+				return TV{T: x.T, Ty: goVT(p.Elem()), Addr: true}
+			}
+			return TV{T: ev.ex.loadAt(ev.state(), x.T, p.Elem()), Ty: goVT(p.Elem())}
+		}
+		ev.errorf("deref of non-pointer")
+		return TV{T: "0", Ty: vtInt}
+	case "param":
+		if id, ok := e.Args[0].(EIdent); ok {
+			if v, ok := ev.params[id.Name]; ok {
+				return v
+			}
+		}
+		ev.errorf("param(): not a parameter")
+		return TV{T: "0", Ty: vtInt}
 	case "pre":
 		// value of a loop-carried variable at the head of the iteration just executed (ghost updates only)
 		if id, ok := e.Args[0].(EIdent); ok && ev.ex.ghostLoop != nil {
@@ -756,6 +830,9 @@ func (ev *Eval) call(e ECall) TV {
 	case "store":
 		a, i, v := arg(0), arg(1), arg(2)
 		return TV{T: sSto(a.T, i.T, v.T), Ty: a.Ty}
+	case "idmap":
+		ev.vc().declareOnce("const:idmap", "(declare-const idmap_c (Array Int Int))\n(assert (forall ((k Int)) (! (= (select idmap_c k) k) :pattern ((select idmap_c k)))))")
+		return TV{T: "idmap_c", Ty: VT{Kind: "map", Args: []VT{vtInt, vtInt}}}
 	case "emptyset":
 		ev.errorf("emptyset needs a type context; compare with forall instead")
 	case "held":
@@ -912,6 +989,23 @@ func (ev *Eval) modTargets(loc string) []modTarget {
 		return nil
 	}
 	if loc == "log" {
+		return nil
+	}
+	if strings.HasPrefix(loc, "*") {
+		inner, err := parseExpr(loc[1:])
+		if err == nil {
+			x := ev.rval(ev.eval(inner))
+			if x.Ty.Go != nil {
+				if p, ok := x.Ty.Go.Underlying().(*types.Pointer); ok {
+					if isAggregate(p.Elem()) {
+						return ev.aggTargets(x.T, p.Elem())
+					}
+					k, srt := ex.cellKey(p.Elem())
+					return []modTarget{{key: k, sort: "(Array Int " + srt + ")", idx: x.T}}
+				}
+			}
+		}
+		ev.errorf("modifies: unsupported location %q", loc)
 		return nil
 	}
 	e, err := parseExpr(loc)
@@ -1157,4 +1251,96 @@ func (ex *Exec) availableAt(v ssa.Value, pt *progPoint) bool {
 	}
 	_, have := ex.vals[v]
 	return have && b.Dominates(pt.block)
+}
+
+// findIxOffset looks for an occurrence "(ix OFF v)" in term where OFF mentions none of the bound variables.
+func findIxOffset(term, v string, bound []string) (string, bool) {
+	for i := 0; ; {
+		k := strings.Index(term[i:], "(ix ")
+		if k < 0 {
+			return "", false
+		}
+		k += i
+		j := k + 4
+		a1, n1 := sexprAt(term, j)
+		if n1 > 0 && n1 < len(term) && term[n1] == ' ' {
+			a2, n2 := sexprAt(term, n1+1)
+			if n2 > 0 && a2 == v && n2 < len(term) && term[n2] == ')' {
+				clean := true
+				for _, b := range bound {
+					if containsToken(a1, b) {
+						clean = false
+					}
+				}
+				if clean {
+					return a1, true
+				}
+			}
+		}
+		i = k + 4
+	}
+}
+
+// sexprAt returns the s-expression starting at position i and the index just after it.
+func sexprAt(s string, i int) (string, int) {
+	if i >= len(s) {
+		return "", -1
+	}
+	if s[i] == '(' {
+		depth := 0
+		for j := i; j < len(s); j++ {
+			if s[j] == '(' {
+				depth++
+			} else if s[j] == ')' {
+				depth--
+				if depth == 0 {
+					return s[i : j+1], j + 1
+				}
+			}
+		}
+		return "", -1
+	}
+	j := i
+	for j < len(s) && s[j] != ' ' && s[j] != ')' && s[j] != '(' {
+		j++
+	}
+	return s[i:j], j
+}
+
+func isTokChar(c byte) bool {
+	return !(c == ' ' || c == '(' || c == ')')
+}
+
+func containsToken(s, tok string) bool {
+	for i := 0; ; {
+		k := strings.Index(s[i:], tok)
+		if k < 0 {
+			return false
+		}
+		k += i
+		if (k == 0 || !isTokChar(s[k-1])) && (k+len(tok) >= len(s) || !isTokChar(s[k+len(tok)])) {
+			return true
+		}
+		i = k + len(tok)
+	}
+}
+
+func replaceToken(s, tok, with string) string {
+	var b strings.Builder
+	for i := 0; i < len(s); {
+		k := strings.Index(s[i:], tok)
+		if k < 0 {
+			b.WriteString(s[i:])
+			break
+		}
+		k += i
+		b.WriteString(s[i:k])
+		if (k == 0 || !isTokChar(s[k-1])) && (k+len(tok) >= len(s) || !isTokChar(s[k+len(tok)])) {
+			b.WriteString(with)
+		} else {
+			b.WriteString(tok)
+		}
+		i = k + len(tok)
+	}
+	return b.String()
 }
